@@ -377,7 +377,16 @@ def decl_route(ctx, bad_rate):
         for g in ("c", "f", "py"):
             if ctx.rng.random() < 0.7:
                 body, kinds = make_body(ctx.rng, 100 * i + len(sp), bad_rate)
-                sp[g] = body
+                # list form, or the documented block-scalar form (one string, newline separated; interior blank lines are user lines)
+                form = ctx.rng.random()
+                if body and form < 0.5:
+                    if form < 0.25 and len(body) >= 2:
+                        body = body[:1] + [""] + body[1:]
+                    sp[g] = "\n".join(body) + "\n"
+                    ctx.hist("e2e:decl-form:string")
+                else:
+                    sp[g] = body
+                    ctx.hist("e2e:decl-form:list")
                 exp[(g, "function.fun%d" % i)] = (body, kinds)
         d = {"decl": "int fun%d(int arg)" % i}
         if sp:
